@@ -1,7 +1,10 @@
 (* C09 -- The requested disparity interval is honoured and does not leak into costs.
-   Statements only; proofs are in Proofs/IntervalP.v, Proofs/IntervalWtaP.v, Proofs/IntervalCbcaP.v.
+   Statements only; proofs are in Proofs/IntervalP.v, Proofs/IntervalWtaP.v, Proofs/IntervalCbcaP.v,
+   Proofs/IntervalPipelineP.v, Proofs/IntervalRefineP.v.
    No new model of the cost computation: the volumes are those of C02 (Model/MatchingCost.v, tied to the
-   code by the correspondence runs of harness/props/c02.py and c09.py), WTA is C03's model, cbca C11's.
+   code by the correspondence runs of harness/props/c02.py and c09.py), WTA is C03's model, cbca C11's;
+   the steps after the disparity step (last clause) are the models of C06, C10, C07, C14, composed in
+   Model/IntervalPipeline.v.
 
    Reading guide.  [inp] = the two images (selected band), masks, window, subpix and two disparity
    grids; [with_grids inp g h] the same pair with grids (g, h); [scalar_grids inp a b] what
@@ -13,10 +16,14 @@
    written, mask, band, pixel (r, c) -- also outside the image --, so no side condition is hidden in a
    totalised read.  None of them needs model = spec: they are about how the interval enters the
    computation (range of the plane index, dsp = int((disp - dmin) * subpix), the two loops of cv_masked). *)
-From Coq Require Import ZArith List Bool QArith Qround.
+From Coq Require Import ZArith List Bool QArith Qround Lia.
 From Pandora Require Import Lib.Ext Model.MatchingCost Spec.Cost Model.Interval Spec.Interval
                             Proofs.MatchingCostP Proofs.IntervalP Proofs.IntervalWtaP.
 From Pandora Require Model.Cbca Proofs.CbcaP Proofs.IntervalCbcaP.
+From Pandora Require Model.Refine Model.Filters Model.CrossCheck Model.Interp Spec.CrossCheck Spec.Interp Spec.Filters.
+From Pandora Require Import Model.IntervalPipeline.
+From Pandora Require Proofs.IntervalPipelineP Proofs.IntervalRefineP.
+From Pandora Require Gen.RefineConsts Gen.Constants Gen.ValConst Model.Mirror Gen.Callbacks.
 Import ListNotations.
 Open Scope Z_scope.
 
@@ -169,23 +176,14 @@ Theorem C09_wta_restriction : forall val m inp a b a' b' mx B B' invalid invalid
   wta_on_volume val m (scalar_grids inp a b) a b mx B invalid conf mask r c = Some (sample_q (i_s inp) a kJ).
 Proof. exact wta_restriction. Qed.
 
-(* ---- whatever follows: the invariant and its composition (PARTIAL, see below) *)
+(* ---- whatever follows the disparity step: the last clause of the property *)
 
-(* state after the disparity step: the map and which pixels are valid *)
-
-(* FULL statement of the last clause of the property: for every single-scale legal pipeline the final
-   disparity of every valid pixel lies in [dmin, dmax].  It needs, for each built-in step after the
-   disparity step, "the step preserves in_global_interval" (refinement: C06, filters: C10,
-   cross-checking / interpolation: C07 / C14), which are other properties' theorems.  What is proved
-   here is the composition for ARBITRARY steps (any number, any order) and the base case (WTA on the
-   matching-cost volume).  The harness checks the full statement on the real code for random legal
-   pipelines; a refinement step running after a filter or validation step violates it (recorded
-   finding refinement_after_filter_leaves_interval, DESIGN 4/D13). *)
-Definition C09_final_disp_in_global_interval_full : Prop :=
-  forall (steps : list (dstate -> dstate)) ny nx dmin dmax st0,
-    in_global_interval ny nx dmin dmax st0 ->
-    in_global_interval ny nx dmin dmax (fold_left (fun st f => f st) steps st0).
-
+(* Composition lemma kept from the first version: any number of ARBITRARY state transformers that each
+   preserve "valid pixels lie in [dmin, dmax]" preserve it.  (The first version displayed, as the "full
+   statement" -- Definition C09_final_disp_in_global_interval_full, now named C09_arbitrary_steps --, the
+   same sentence WITHOUT the hypothesis on the steps; over arbitrary functions that
+   sentence is false -- C09_arbitrary_steps_refuted -- and was never the property's clause: the clause
+   speaks of the steps of a pipeline.  It is stated and proved over those steps below.) *)
 Theorem C09_final_disp_in_global_interval_partial :
   forall (steps : list (dstate -> dstate)) ny nx dmin dmax st0,
     Forall (fun f => forall st, in_global_interval ny nx dmin dmax st -> in_global_interval ny nx dmin dmax (f st)) steps ->
@@ -193,12 +191,181 @@ Theorem C09_final_disp_in_global_interval_partial :
     in_global_interval ny nx dmin dmax (fold_left (fun st f => f st) steps st0).
 Proof. exact steps_preserve_interval. Qed.
 
+Definition C09_arbitrary_steps : Prop :=
+  forall (steps : list (dstate -> dstate)) ny nx dmin dmax st0,
+    in_global_interval ny nx dmin dmax st0 ->
+    in_global_interval ny nx dmin dmax (fold_left (fun st f => f st) steps st0).
+Theorem C09_arbitrary_steps_refuted : ~ C09_arbitrary_steps.
+Proof.
+  intro H.
+  assert (H0 : in_global_interval 1 1 0 0 (mkD (fun _ _ => Some 0%Q) (fun _ _ => true))).
+  { intros r c _ _ _. exists 0%Q. repeat split; discriminate. }
+  specialize (H [fun _ => mkD (fun _ _ => None) (fun _ _ => true)] 1 1 0 0 _ H0).
+  destruct (H 0 0 ltac:(split; [discriminate | reflexivity]) ltac:(split; [discriminate | reflexivity]) eq_refl)
+    as (d & E & _).
+  discriminate E.
+Qed.
+
 (* base case: the state produced by WTA on the matching-cost volume, valid = has a computable cost *)
 Theorem C09_wta_state_in_global_interval : forall val m inp dmin dmax mx B invalid conf mask,
   1 <= B -> 0 < i_s inp -> dmin <= dmax ->
   in_global_interval (i_ny inp) (i_nx inp) dmin dmax
     (mkD (wta_on_volume val m inp dmin dmax mx B invalid conf mask) (has_cost m inp dmin dmax)).
 Proof. exact wta_state_in_global_interval. Qed.
+
+(* The steps.  Model/IntervalPipeline.v: the products are [pstate] = (disparity_map, validity_mask,
+   confidence bands); [step] = the triggers of the state machine from disp_map to disp_map in a single
+   scale, each a CALL of the model of its own property (nothing re-modelled):
+     SRefine me m cv                   refinement vfit | quadratic, measure min | max (Model/Refine.v refine_map)
+     SMedian rad                       median filter of size 2 rad + 1                 (Model/Filters.v)
+     SBilateral sigma sk rk            bilateral filter, its two kernels as data       (Model/Filters.v)
+     SMedianIntervals w reg binf bsup  median_for_intervals, optional regularisation   (Model/Filters.v)
+     SValidation thr other ip          cross_checking_accurate against the right dataset [other], then the
+                                       interpolation mc-cnn | sgm when configured (Model/CrossCheck.v, Interp.v)
+   [run_steps X steps st] runs any list of them (any length, any order, repetitions) and is None when a step
+   raises or reads outside an array.  [pctx] X holds what stays fixed: size, [dmin, dmax], subpix, offset,
+   block sizes.  A pixel is valid when its mask carries none of the bits 0, 1, 6, 7, 8, 9
+   (Spec/CrossCheck.v spec_valid = the tests of the four models: C09_validity_tests_agree).
+
+   Per-run obligation: the constants the composed models use are those of the regenerated
+   pandora/constants.py and block sizes. *)
+Theorem C09_pipeline_constants :
+  KK = Refine.mkK RefineConsts.msk_invalid RefineConsts.msk_stopped
+  /\ INV = Constants.msk_pixel_invalid /\ BIT11 = Constants.msk_pixel_interval_regularized
+  /\ CrossCheck.MSK_INVALID = ValConst.PANDORA_MSK_PIXEL_INVALID
+  /\ 1 <= Constants.median_block /\ 1 <= Constants.bilateral_block.
+Proof. repeat split; try reflexivity; vm_compute; discriminate. Qed.
+
+(* Per-run obligation on the regenerated call structure of the three run callbacks (Gen/Callbacks.v, by ast from
+   state_machine.py): filter_run filters the left disparity dataset in place from that dataset alone,
+   refinement_run refines it from (left_cv, left disparity), validation_run cross-checks it against the right
+   dataset and, when interpolated_disparity is configured, interpolates it from itself -- what [run_step]
+   composes; under the right_disp_map guard the same calls are made on the right products with the roles swapped. *)
+Theorem C09_callbacks_as_composed :
+  Callbacks.gen_callback Mirror.CbFlt
+  = [ Mirror.mkSeg [ Mirror.mkCall Mirror.FFilter [Mirror.Ldisp] [] ]
+                   [ Mirror.mkCall Mirror.FFilter [Mirror.Rdisp] [] ] true ]
+  /\ Callbacks.gen_callback Mirror.CbRef
+  = [ Mirror.mkSeg [ Mirror.mkCall Mirror.FRefine [Mirror.Lcv; Mirror.Ldisp] [] ]
+                   [ Mirror.mkCall Mirror.FRefine [Mirror.Rcv; Mirror.Rdisp] [] ] true ]
+  /\ Callbacks.gen_callback Mirror.CbVal
+  = [ Mirror.mkSeg [ Mirror.mkCall Mirror.FCrossCheck [Mirror.Ldisp; Mirror.Rdisp] [Mirror.Ldisp] ]
+                   [ Mirror.mkCall Mirror.FCrossCheck [Mirror.Rdisp; Mirror.Ldisp] [Mirror.Rdisp];
+                     Mirror.mkCall Mirror.FCfgCond [] [];
+                     Mirror.mkCall Mirror.FInterpolate [Mirror.Ldisp] [];
+                     Mirror.mkCall Mirror.FInterpolate [Mirror.Rdisp] [] ] true ].
+Proof. repeat split; reflexivity. Qed.
+
+Theorem C09_validity_tests_agree : forall m,
+  (Spec.CrossCheck.spec_valid m = true <-> Z.land m (Refine.k_invalid KK) = 0)       (* loop_refinement *)
+  /\ (Spec.CrossCheck.spec_valid m = true <-> Filters.invalid_px INV m = false)        (* the filters *)
+  /\ Spec.CrossCheck.spec_valid m = CrossCheck.is_valid m                               (* cross-checking *)
+  /\ Spec.CrossCheck.spec_valid m = Interp.okpix m.                                     (* interpolation *)
+Proof.
+  intro m. split; [apply IntervalPipelineP.spec_valid_land|]. split.
+  - rewrite IntervalPipelineP.spec_valid_land. unfold Filters.invalid_px, INV.
+    destruct (Z.land m CrossCheck.MSK_INVALID =? 0) eqn:E; cbn [negb].
+    + apply Z.eqb_eq in E. split; auto.
+    + apply Z.eqb_neq in E. split; [contradiction | discriminate].
+  - split; [symmetry; apply CrossCheckP.is_valid_spec | symmetry; apply InterpP.okpix_spec].
+Qed.
+
+(* ONE step, whatever it is: from products in which every valid pixel of the image holds a finite
+   disparity of [dmin, dmax] (and no pixel carries both bit 8 and bit 9), the step returns -- no exception,
+   no read outside an array -- products with the same two properties.
+   [step_ok] asks only for shapes: one cost per sample of the axis in the volume the refinement reads,
+   rad >= 0, sigma_space >= 0 and kernels without negative weight (data); nothing about the VALUES of
+   the costs, of the right dataset, of the interval bands. *)
+Theorem C09_step_preserves_interval : forall X sp st,
+  ctx_ok X -> step_ok X sp ->
+  in_global_interval (c_ny X) (c_nx X) (c_dmin X) (c_dmax X) (dstate_of (p_disp st) (p_mask st)) ->
+  Spec.Interp.never_both (c_ny X) (c_nx X) (p_mask st) ->
+  exists st', run_step X sp st = Some st'
+    /\ in_global_interval (c_ny X) (c_nx X) (c_dmin X) (c_dmax X) (dstate_of (p_disp st') (p_mask st'))
+    /\ Spec.Interp.never_both (c_ny X) (c_nx X) (p_mask st').
+Proof.
+  intros X sp st XOK SOK H NB.
+  destruct (IntervalPipelineP.run_step_inv X sp st XOK SOK (IntervalPipelineP.in_global_pinv X st H NB)) as (st' & E & I).
+  exists st'. split; [exact E|]. split; [apply IntervalPipelineP.pinv_in_global; exact I | exact (proj2 I)].
+Qed.
+
+(* THE LAST CLAUSE, full statement: for EVERY pipeline tail -- any number of refinement / filter /
+   validation steps in any order, repetitions included, any methods and parameters -- run on products in
+   which every valid pixel lies in the requested interval [dmin, dmax], the run completes and every
+   valid pixel of the final map holds a finite disparity of [dmin, dmax].
+   (Stated for "the" products of a run; the state machine applies the SAME functions to the right products when
+   cross_checking_accurate is on -- filter_disparity(right_disparity), subpixel_refinement(right_cv, right_disparity),
+   disparity_checking(right_disparity, left_disparity), interpolated_disparity(right_disparity) -- so the right map is
+   the instance [c_dmin, c_dmax] = first / last coordinate of the right volume, [other] = the left dataset.) *)
+Theorem C09_final_disp_in_global_interval : forall X steps st0,
+  ctx_ok X -> Forall (step_ok X) steps ->
+  Spec.Interp.never_both (c_ny X) (c_nx X) (p_mask st0) ->
+  in_global_interval (c_ny X) (c_nx X) (c_dmin X) (c_dmax X) (dstate_of (p_disp st0) (p_mask st0)) ->
+  exists st, run_steps X steps st0 = Some st
+    /\ in_global_interval (c_ny X) (c_nx X) (c_dmin X) (c_dmax X) (dstate_of (p_disp st) (p_mask st))
+    /\ Spec.Interp.never_both (c_ny X) (c_nx X) (p_mask st).
+Proof. exact IntervalPipelineP.final_disp_in_global_interval. Qed.
+
+(* ... and from the disparity step on: WTA (any block size, min / max) on the masked volume of any of the
+   four measures, with ANY validity mask [mask0] that declares valid only pixels that have a computable
+   cost (C04_invalid_iff_nocost) and sets neither bit 8 nor bit 9 (C04: the disparity step writes criteria
+   bits only), followed by ANY pipeline tail: every valid pixel of the final map lies in [dmin, dmax]. *)
+Theorem C09_final_disp_in_global_interval_from_wta :
+  forall val m inp dmin dmax mx B invalid conf wmask off bmed bbil mask0 bands steps,
+  let X := mkCtx (i_ny inp) (i_nx inp) dmin dmax (i_s inp) off bmed bbil in
+  1 <= B -> ctx_ok X -> Forall (step_ok X) steps ->
+  (forall r c, 0 <= r < i_ny inp -> 0 <= c < i_nx inp ->
+     Spec.CrossCheck.spec_valid (mask0 r c) = true -> has_cost m inp dmin dmax r c = true) ->
+  Spec.Interp.never_both (i_ny inp) (i_nx inp) mask0 ->
+  exists st, run_steps X steps (mkP (wta_on_volume val m inp dmin dmax mx B invalid conf wmask) mask0 bands) = Some st
+    /\ in_global_interval (i_ny inp) (i_nx inp) dmin dmax (dstate_of (p_disp st) (p_mask st)).
+Proof.
+  intros val m inp dmin dmax mx B invalid conf wmask off bmed bbil mask0 bands steps X HB XOK SOK Hcost NB.
+  pose proof XOK as (_ & _ & _ & Hd & Hs & _). cbn [c_dmin c_dmax c_s X] in Hd, Hs.
+  destruct (IntervalPipelineP.final_disp_in_global_interval X steps
+              (mkP (wta_on_volume val m inp dmin dmax mx B invalid conf wmask) mask0 bands) XOK SOK NB) as (st & E & I & _).
+  - intros r c Hr Hc Hv. cbn [dstate_of d_valid d_map p_disp p_mask c_ny c_nx X] in *.
+    exact (wta_state_in_global_interval val m inp dmin dmax mx B invalid conf wmask HB Hs Hd r c Hr Hc (Hcost r c Hr Hc Hv)).
+  - exists st. split; [exact E | exact I].
+Qed.
+
+(* ---- "... and within its own per-pixel interval right after the disparity and refinement steps"
+
+   [cost_row val m inp dmin dmax r c] = cv[r, c, :] of the masked volume, as loop_refinement reads it;
+   [Refine.loop_pixel] = one pixel of loop_refinement (C06's model, vfit or quadratic [me], min / max [mm]).
+   A valid pixel holding a SAMPLE of the axis that lies inside its own [gmin, gmax] (what the disparity step
+   gives it: C09_wta_within_interval) is refined -- no exception, no read outside the row -- to a disparity
+   inside its own [gmin, gmax] (and inside [dmin, dmax], at most half a sample away).  Per-pixel grids and
+   scalar intervals alike; every measure, subpix, window, mask.  (For a disparity that is NOT a sample, i.e.
+   a refinement that runs after a filter or a validation, only the global interval is proved:
+   C09_final_disp_in_global_interval; the property's clause is about "right after".) *)
+Theorem C09_refined_within_pixel_interval : forall val m inp dmin dmax me mm r c k mask res,
+  0 < i_s inp -> dmin <= dmax -> 0 <= k < nb_disp (i_s inp) dmin dmax ->
+  i_gmin inp r c * i_s inp <= disp_scaled (i_s inp) dmin k <= i_gmax inp r c * i_s inp ->
+  Z.land mask CrossCheck.MSK_INVALID = 0 ->
+  Refine.loop_pixel KK me mm (inject_Z dmin) (inject_Z dmax) (i_s inp) (cost_row val m inp dmin dmax r c)
+                    (Some (sample_q (i_s inp) dmin k)) mask = res ->
+  exists d' c' mask', res = Refine.POk (Some d') c' mask'
+    /\ (inject_Z (i_gmin inp r c) <= d' /\ d' <= inject_Z (i_gmax inp r c))%Q
+    /\ (inject_Z dmin <= d' /\ d' <= inject_Z dmax)%Q
+    /\ (Qabs.Qabs (d' - sample_q (i_s inp) dmin k) * inject_Z (i_s inp) <= 1 # 2)%Q.
+Proof. exact IntervalRefineP.refined_within_pixel_interval. Qed.
+
+(* the two steps in a row, for a pixel of the image that has a computable cost *)
+Theorem C09_wta_then_refinement_within_pixel_interval :
+  forall val m inp dmin dmax mx B invalid conf wmask me mm r c k0 v0 mask,
+  1 <= B -> 0 < i_s inp -> dmin <= dmax -> 0 <= r < i_ny inp -> 0 <= c < i_nx inp ->
+  0 <= k0 < nb_disp (i_s inp) dmin dmax -> mvolume m inp dmin dmax r c k0 = Some v0 ->
+  Z.land mask CrossCheck.MSK_INVALID = 0 ->
+  exists d d' c' mask',
+    wta_on_volume val m inp dmin dmax mx B invalid conf wmask r c = Some d
+    /\ Refine.loop_pixel KK me mm (inject_Z dmin) (inject_Z dmax) (i_s inp) (cost_row val m inp dmin dmax r c)
+                         (Some d) mask = Refine.POk (Some d') c' mask'
+    /\ (inject_Z (i_gmin inp r c) <= d /\ d <= inject_Z (i_gmax inp r c))%Q
+    /\ (inject_Z (i_gmin inp r c) <= d' /\ d' <= inject_Z (i_gmax inp r c))%Q
+    /\ (inject_Z dmin <= d' /\ d' <= inject_Z dmax)%Q
+    /\ (Qabs.Qabs (d' - d) * inject_Z (i_s inp) <= 1 # 2)%Q.
+Proof. exact IntervalRefineP.wta_then_refinement_within_pixel_interval. Qed.
 
 (* ---- cross-based aggregation (C11's model) *)
 
@@ -287,6 +454,63 @@ Example C09_example :
                    (Some (-9999)%Q) (fun _ _ => []) (fun _ _ => 0) 1 2 = Some (1 # 2)%Q.
 Proof. vm_compute. repeat split. Qed.
 
+(* ---- non-vacuity of the last clause: a 3 x 4 map on [-1, 2] (subpix 1) with an invalid pixel (flag 2), information
+   bits, and six steps in a row -- refinement (vfit), median 3 x 3, validation with sgm interpolation, bilateral,
+   refinement again (quadratic, on off-grid disparities), validation without interpolation.  The hypotheses of
+   C09_final_disp_in_global_interval hold, the run completes, and the final map holds off-grid values
+   (17/20, 67/80, 11/14), all inside [-1, 2]; the invalid pixel keeps its -9999 *)
+Definition pl_grid {A} (d : A) (rows : list (list A)) : Z -> Z -> A :=
+  fun r c => if (r <? 0) || (c <? 0) then d else nth (Z.to_nat c) (nth (Z.to_nat r) rows []) d.
+Definition pl_q (z : Z) : option Q := Some (inject_Z z).
+Definition pl_show {A} (nr nc : Z) (f : Z -> Z -> A) : list (list A) :=
+  map (fun r => map (fun c => f r c) (CrossCheck.zrange 0 nc)) (CrossCheck.zrange 0 nr).
+Definition pl_X := mkCtx 3 4 (-1) 2 1 0 100 50.
+Definition pl_disp := pl_grid None [[pl_q 0; pl_q 1; pl_q 2; pl_q (-1)]; [pl_q 1; pl_q 0; pl_q (-9999); pl_q 2];
+                                    [pl_q 2; pl_q 1; pl_q 1; pl_q 0]].
+Definition pl_mask := pl_grid 0 [[0; 0; 4; 0]; [0; 0; 2; 0]; [0; 8; 0; 0]].
+Definition pl_cv : Z -> Z -> list (option Q) :=
+  fun r c => if c =? 1 then [pl_q 9; pl_q 4; pl_q 2; pl_q 7] else [pl_q 3; pl_q 1; None; pl_q 5].
+Definition pl_other :=
+  CrossCheck.mkDS 3 4 (pl_grid None [[pl_q 0; pl_q (-1); pl_q 1; pl_q 1]; [pl_q (-1); pl_q 0; pl_q 0; pl_q 0];
+                                      [pl_q 0; pl_q (-1); pl_q (-2); pl_q 0]])
+                  (fun _ _ => 0) [] (-2) 1 0.
+Definition pl_steps :=
+  [SRefine Refine.Vfit Refine.MMin pl_cv; SMedian 1; SValidation 1 pl_other (Some Interp.Sgm);
+   SBilateral (2 # 3) (fun _ _ => 1%Q) (fun _ => 1%Q); SRefine Refine.Quadratic Refine.MMin pl_cv;
+   SValidation 0 pl_other None].
+Example C09_example_pipeline :
+  ctx_ok pl_X /\ Forall (step_ok pl_X) pl_steps
+  /\ Spec.Interp.never_both 3 4 pl_mask
+  /\ in_global_interval 3 4 (-1) 2 (dstate_of pl_disp pl_mask)
+  /\ match run_steps pl_X pl_steps (mkP pl_disp pl_mask []) with
+     | Some st =>
+       pl_show 3 4 (p_disp st)
+       = [[Some 0; Some 0; Some (17 # 20); Some (-1)]; [Some 1; Some (67 # 80); Some (-9999); Some (17 # 20)];
+          [Some 2; Some (11 # 14); Some 1; Some 0]]%Q
+       /\ pl_show 3 4 (p_mask st) = [[8; 280; 284; 8]; [256; 520; 2; 280]; [8; 280; 256; 8]]
+     | None => False
+     end.
+Proof.
+  split; [unfold ctx_ok; cbn; lia|].
+  split.
+  { assert (CV : step_ok pl_X (SRefine Refine.Vfit Refine.MMin pl_cv) /\ step_ok pl_X (SRefine Refine.Quadratic Refine.MMin pl_cv)).
+    { split; intros r c _ _; unfold pl_cv; destruct (c =? 1); reflexivity. }
+    unfold pl_steps. repeat apply Forall_cons; try apply Forall_nil; try exact I; try (apply CV).
+    - cbn. lia.
+    - split; [discriminate|]. cbv zeta. repeat split; intros; try discriminate; reflexivity. }
+  split.
+  { intros r c Hr Hc.
+    assert (Er : r = 0 \/ r = 1 \/ r = 2) by lia. assert (Ec : c = 0 \/ c = 1 \/ c = 2 \/ c = 3) by lia.
+    destruct Er as [->|[->| ->]]; destruct Ec as [->|[->|[->| ->]]]; reflexivity. }
+  split.
+  { intros r c Hr Hc Hv.
+    assert (Er : r = 0 \/ r = 1 \/ r = 2) by lia. assert (Ec : c = 0 \/ c = 1 \/ c = 2 \/ c = 3) by lia.
+    destruct Er as [->|[->| ->]]; destruct Ec as [->|[->|[->| ->]]];
+      try (vm_compute in Hv; discriminate Hv);
+      (eexists; split; [reflexivity | split; vm_compute; discriminate]). }
+  vm_compute. split; reflexivity.
+Qed.
+
 Print Assumptions C09_two_runs_same_sample.
 Print Assumptions C09_cost_indep_of_interval.
 Print Assumptions C09_slice_index.
@@ -304,7 +528,16 @@ Print Assumptions C09_wta_within_interval.
 Print Assumptions C09_wta_no_cost_invalid.
 Print Assumptions C09_wta_restriction.
 Print Assumptions C09_final_disp_in_global_interval_partial.
+Print Assumptions C09_arbitrary_steps_refuted.
 Print Assumptions C09_wta_state_in_global_interval.
+Print Assumptions C09_pipeline_constants.
+Print Assumptions C09_callbacks_as_composed.
+Print Assumptions C09_validity_tests_agree.
+Print Assumptions C09_step_preserves_interval.
+Print Assumptions C09_final_disp_in_global_interval.
+Print Assumptions C09_final_disp_in_global_interval_from_wta.
+Print Assumptions C09_refined_within_pixel_interval.
+Print Assumptions C09_wta_then_refinement_within_pixel_interval.
 Print Assumptions C09_cbca_plane_ext.
 Print Assumptions C09_cbca_slice.
 Print Assumptions C09_cbca_slice_of_nested_intervals.
